@@ -308,6 +308,16 @@ pub fn miri_run(args: &[String]) -> i32 {
         }
     }
     assert_eq!(kept, 11, "an explicit clock rate must stay set");
+    // ... also when the value arrives through the inspectable form (public fields, no setter in between)
+    for r in [0.0, -0.0, -1.0, f64::MIN_POSITIVE, 1e-320, 0.01, 1.0, 100.0, 1e9, f64::INFINITY, f64::NEG_INFINITY] {
+        let mut insp = rosu_pp::Difficulty::new().inspect();
+        insp.clock_rate = Some(r);
+        insp.od = Some(rosu_pp::any::ModsDependent { value: 33.0, with_mods: true });
+        let d = insp.into_difficulty();
+        let back = d.inspect();
+        assert!(back.clock_rate.is_some_and(|c| (0.01..=100.0).contains(&c)), "clock rate {r} through InspectDifficulty: {:?}", back.clock_rate);
+        assert!(back.od.is_some_and(|o| o.value <= 20.0), "od through InspectDifficulty: {:?}", back.od);
+    }
     // decoder scratch buffers
     for (text, _) in pathbuf_cases("quick").iter().take(12) {
         let _ = Beatmap::from_str(text);
